@@ -25,6 +25,9 @@ type component struct {
 
 var components = map[string]*component{}
 
+// flagExtra: trailing key=value arguments (e.g. profile=C03)
+var flagExtra []string
+
 type genCtx struct {
 	seed   uint64
 	tier   string
@@ -78,6 +81,7 @@ func main() {
 	tier := fs.String("tier", "quick", "quick|thorough")
 	scale := fs.Float64("scale", 1.0, "multiplier on case counts")
 	_ = fs.Parse(os.Args[3:])
+	flagExtra = fs.Args()
 	w := bufio.NewWriterSize(os.Stdout, 1<<20)
 	defer w.Flush()
 	switch mode {
